@@ -1,7 +1,7 @@
 (* Extract.v -- extraction of the executable models (ExtrOcamlBasic only; no
    Extract Constant / Extract Inductive of our own: nat, N, Z, positive stay
    the extracted inductive datatypes). *)
-From LM Require Import Base Queue Stack ListM Bst MapM MemM CoreTypes CoreModel CoreExec.
+From LM Require Import Base Queue Stack ListM Bst MapM MemM Thpool CoreTypes CoreModel CoreExec.
 Require Extraction.
 Require Import ExtrOcamlBasic.
-Extraction "model.ml" q_run s_run l_run b_run m_run k_run core_run.
+Extraction "model.ml" q_run s_run l_run b_run m_run k_run core_run thpool_run.
